@@ -1,8 +1,8 @@
 package main
 
 import (
-	"go/constant"
 	"fmt"
+	"go/constant"
 	"go/token"
 	"go/types"
 	"sort"
@@ -43,9 +43,9 @@ type St struct {
 var stTop = St{allKinds, 3, 3}
 var stBot = St{0, 0, 0}
 
-func (a St) join(b St) St  { return St{a.K | b.K, a.R | b.R, a.L | b.L} }
-func (a St) empty() bool   { return a.K == 0 || a.R == 0 || a.L == 0 }
-func (a St) isTop() bool   { return a == stTop }
+func (a St) join(b St) St { return St{a.K | b.K, a.R | b.R, a.L | b.L} }
+func (a St) empty() bool  { return a.K == 0 || a.R == 0 || a.L == 0 }
+func (a St) isTop() bool  { return a == stTop }
 func (a St) String() string {
 	var ks []string
 	for i := 0; i < nKinds; i++ {
@@ -188,12 +188,13 @@ func fieldSource(tn, f string) src {
 type fnFacts struct {
 	fn     *ssa.Function
 	cd     *cdInfo
-	fields []ssa.Value              // candidate subject field values (type *model.Field) with tests or parameter
-	st     map[ssa.Value][]St       // field value -> state at entry of each block (by block index)
-	entry  map[ssa.Value]St         // entry state for parameter fields
+	fields []ssa.Value        // candidate subject field values (type *model.Field) with tests or parameter
+	st     map[ssa.Value][]St // field value -> state at entry of each block (by block index)
+	entry  map[ssa.Value]St   // entry state for parameter fields
 	// a function that is not handed the field (only pieces of it) inherits the state of its call sites: every block has this state
-	hasCtx bool
-	ctx    St
+	hasCtx      bool
+	ctx         St
+	ctxSpecific bool // some call site had a field-specific state (the join may still be top)
 }
 
 // ctxField stands for "the field under emission at the call sites" in functions that have no field parameter.
@@ -384,6 +385,9 @@ func (m *matrix) solve() {
 						s = stTop
 					}
 					if !s.empty() {
+						if !s.isTop() {
+							gf.ctxSpecific = true
+						}
 						if nw := gf.ctx.join(s); nw != gf.ctx {
 							gf.ctx = nw
 							changed = true
@@ -541,13 +545,13 @@ func (m *matrix) feasible(fn *ssa.Function, b *ssa.BasicBlock, u *unit) bool {
 // ---- dependence ----
 
 type depCtx struct {
-	m        *matrix
-	fn       *ssa.Function
-	u        *unit
-	memo     map[ssa.Value]src
-	busy     map[ssa.Value]bool
+	m          *matrix
+	fn         *ssa.Function
+	u          *unit
+	memo       map[ssa.Value]src
+	busy       map[ssa.Value]bool
 	bindParams bool // parameters carry what the repo call sites pass in (site evaluation only, never inside helper summaries)
-	noOpaque bool // summarise calls to emitter roots like any helper (used by the sibling-arm rules)
+	noOpaque   bool // summarise calls to emitter roots like any helper (used by the sibling-arm rules)
 }
 
 type paramKey struct {
@@ -1377,7 +1381,7 @@ func (m *matrix) unitGroups(fns []*ssa.Function, u unit) []groupDeps {
 			if f == nil || st.empty() || !st.admits(u) {
 				continue
 			}
-			if _, isParam := f.(*ssa.Parameter); st.isTop() && !isParam {
+			if _, isParam := f.(*ssa.Parameter); st.isTop() && !isParam && !(f == ctxField && m.facts[fn].ctxSpecific && m.anchors[fn]) {
 				continue // no test on the (loop variable) field dominates this site: common text, not specific to any cell
 			}
 			if u.Target && st.L != 1 {
